@@ -12,15 +12,22 @@ import (
 	"go/token"
 	"io/fs"
 	"os"
+	"context"
 	"path/filepath"
+	"reflect"
 	"regexp"
 	"sort"
 	"strconv"
 	"strings"
 	"text/template"
+	"unsafe"
+
+	"github.com/formancehq/go-libs/v5/pkg/storage/migrations"
 
 	ledger "github.com/formancehq/ledger/internal"
 	"github.com/formancehq/ledger/internal/storage/bucket"
+	systemstore "github.com/formancehq/ledger/internal/storage/system"
+	"github.com/formancehq/ledger/internal/verif/pgfake"
 	"github.com/formancehq/ledger/internal/verif/minisql"
 )
 
@@ -80,6 +87,43 @@ func foldMigrations() (*minisql.FoldedSchema, []string, error) {
 		return nil, nil, err
 	}
 	return s, names, nil
+}
+
+// foldSystemMigrations runs the Up functions registered by the real
+// system-store migrator (read from the Migrator by reflection: the go-libs
+// migrator itself needs a pgx connection for LISTEN/NOTIFY and cannot run over
+// pgfake) against a lenient recording driver and folds the DDL they issue.
+func foldSystemMigrations() (*minisql.FoldedSchema, int, error) {
+	srv := pgfake.StartRecording(true)
+	defer srv.Close()
+	m := systemstore.GetMigrator(srv.DB())
+	f := reflect.ValueOf(m).Elem().FieldByName("migrations")
+	if !f.IsValid() {
+		return nil, 0, fmt.Errorf("t2_schema: go-libs Migrator has no field `migrations` any more")
+	}
+	f = reflect.NewAt(f.Type(), unsafe.Pointer(f.UnsafeAddr())).Elem()
+	migs, ok := f.Interface().([]migrations.Migration)
+	if !ok {
+		return nil, 0, fmt.Errorf("t2_schema: unexpected type of Migrator.migrations")
+	}
+	s := minisql.NewFoldedSchema()
+	ctx := context.Background()
+	for i, mg := range migs {
+		srv.ResetLog()
+		if err := mg.Up(ctx, srv.DB()); err != nil {
+			return nil, 0, fmt.Errorf("t2_schema: system migration %d (%s): %w", i, mg.Name, err)
+		}
+		for _, st := range srv.Log() {
+			up := strings.ToUpper(strings.TrimSpace(st.SQL))
+			if up == "BEGIN" || up == "COMMIT" || up == "ROLLBACK" {
+				continue
+			}
+			if err := s.FoldMigration(fmt.Sprintf("system/%d-%s", i, mg.Name), st.SQL, systemstore.SchemaSystem); err != nil {
+				return nil, 0, err
+			}
+		}
+	}
+	return s, len(migs), nil
 }
 
 type setupDef struct {
@@ -295,82 +339,9 @@ func GenerateSchemaModule(showPins bool) (string, error) {
 	}
 
 	// ---- tables ----
-	var tnames []string
-	for _, t := range s.Tables {
-		if len(t.FKs) > 0 {
-			return "", fmt.Errorf("t2_schema: table %s keeps foreign keys %v in the final schema; foreign keys are not modelled", t.Name, t.FKs)
-		}
-		w("def tbl_%s : Table :=\n  { name := %s\n    cols := [\n", t.Name, minisql.LeanString(t.Name))
-		for i, c := range t.Cols {
-			w("      { name := %s, ty := %s, notNull := %v, dflt := %s }", minisql.LeanString(c.Name), c.Type.Lean(), c.NotNull, leanOptExpr(c.Default))
-			if i < len(t.Cols)-1 {
-				w(",")
-			}
-			w("\n")
-		}
-		w("    ]\n    uniques := [\n")
-		first := true
-		var nonUnique []string
-		for _, idx := range s.Indexes {
-			if idx.Table != t.Name {
-				continue
-			}
-			if !idx.Unique {
-				nonUnique = append(nonUnique, idx.Name)
-				continue
-			}
-			if !first {
-				w(",\n")
-			}
-			first = false
-			w("      { name := %s, cols := %s, pred := %s, primary := %v }", minisql.LeanString(idx.Name), leanStrList(idx.Cols), leanOptExpr(idx.Pred), idx.Primary)
-		}
-		w("\n    ]\n    checks := [\n")
-		for i, c := range t.Checks {
-			w("      { name := %s, e := %s }", minisql.LeanString(c.Name), c.Expr.Lean())
-			if i < len(t.Checks)-1 {
-				w(",")
-			}
-			w("\n")
-		}
-		w("    ]\n    triggers := [\n")
-		first = true
-		for _, tr := range s.Triggers {
-			if tr.Table != t.Name {
-				continue
-			}
-			if tr.Constraint {
-				return "", fmt.Errorf("t2_schema: constraint trigger %s survives in the final schema; not modelled", tr.Name)
-			}
-			if len(s.Functions[tr.Func]) == 0 {
-				return "", fmt.Errorf("t2_schema: trigger %s uses unknown function %s", tr.Name, tr.Func)
-			}
-			if !first {
-				w(",\n")
-			}
-			first = false
-			w("      { name := %s, timing := TrigTiming.%s, event := TrigEvent.%s, ofCols := %s, when_ := %s, fname := %s }",
-				minisql.LeanString(tr.Name), tr.Timing, tr.Event, leanStrList(tr.OfCols), leanOptExpr(tr.When), minisql.LeanString(tr.Func))
-		}
-		w("\n    ] }\n")
-		if len(nonUnique) > 0 {
-			w("-- non-unique indexes of %s (no semantics in the model): %s\n", t.Name, strings.Join(nonUnique, ", "))
-		}
-		w("\n")
-		tnames = append(tnames, t.Name)
-	}
-	for _, tr := range s.Triggers {
-		if s.Tables != nil {
-			ok := false
-			for _, t := range s.Tables {
-				if t.Name == tr.Table {
-					ok = true
-				}
-			}
-			if !ok {
-				return "", fmt.Errorf("t2_schema: trigger %s on unknown table %s", tr.Name, tr.Table)
-			}
-		}
+	tnames, err := emitTables(w, s, "tbl_")
+	if err != nil {
+		return "", err
 	}
 
 	// ---- types ----
@@ -401,6 +372,13 @@ func GenerateSchemaModule(showPins bool) (string, error) {
 		w("\n")
 	}
 	w("]\n\n")
+	for _, t := range s.Tables {
+		for _, fk := range t.FKs {
+			if s.Table(fk.RefTable) == nil {
+				return "", fmt.Errorf("t2_schema: foreign key %s references unknown table %s", fk.Name, fk.RefTable)
+			}
+		}
+	}
 	if len(s.Aggregates) > 0 {
 		var an []string
 		for n := range s.Aggregates {
@@ -412,6 +390,29 @@ func GenerateSchemaModule(showPins bool) (string, error) {
 	w("/-- the bucket schema a freshly migrated bucket ends with (names relative to the bucket) -/\n")
 	w("def bucket : BucketSchema :=\n  { tables := [%s]\n    funcs := [%s]\n    composites := composites\n    enums := enums\n    seqs := %s }\n\n",
 		strings.Join(prefixAll("tbl_", tnames), ", "), strings.Join(prefixAll("fn_", fnames), ", "), leanStrList(s.Sequences))
+
+	// ---- _system schema ----
+	sys, nsys, err := foldSystemMigrations()
+	if err != nil {
+		return "", err
+	}
+	// public.aggregate_objects is used by the read queries and implemented natively: pin it
+	agg := strings.Join(strings.Fields(strings.ToLower(sys.Aggregates["aggregate_objects"])), " ")
+	if !strings.Contains(agg, "sfunc = public . jsonb_concat") || !strings.Contains(agg, "stype = jsonb") || !strings.Contains(agg, "initcond = '{}'") {
+		return "", fmt.Errorf("t2_schema: public.aggregate_objects is modelled natively and its definition changed: %q", agg)
+	}
+	if fs := sys.Functions["jsonb_concat"]; len(fs) != 1 || normaliseBody(fs[0].Body) != "select $1 || $2" || len(fs[0].Params) != 2 {
+		return "", fmt.Errorf("t2_schema: public.jsonb_concat (state function of aggregate_objects) is modelled natively and changed")
+	}
+	w("-- `_system` schema: folded from the %d migrations registered by internal/storage/system.GetMigrator\n", nsys)
+	w("-- (their Up functions were run over a recording driver). public.aggregate_objects / jsonb_concat are\n")
+	w("-- native in LeanPG (definitions pinned); public.json_compact is only used by data migrations.\n")
+	snames, err := emitTables(w, sys, "sys_")
+	if err != nil {
+		return "", err
+	}
+	w("def system : BucketSchema :=\n  { tables := [%s]\n    funcs := []\n    composites := []\n    enums := []\n    seqs := %s }\n\n",
+		strings.Join(prefixAll("sys_", snames), ", "), leanStrList(sys.Sequences))
 
 	// ---- ledgerSetups ----
 	w("/-- `default_bucket.go:ledgerSetups`: for every entry the required feature values and the\n")
@@ -463,6 +464,98 @@ func GenerateSchemaModule(showPins bool) (string, error) {
 	}
 	w("]\n\nend Ledger.Generated.Schema\n")
 	return sb.String(), nil
+}
+
+
+// emitTables writes one `def <prefix><table> : Table` per table.
+func emitTables(w func(string, ...any), s *minisql.FoldedSchema, prefix string) ([]string, error) {
+	var tnames []string
+	for _, t := range s.Tables {
+		w("def %s%s : Table :=\n  { name := %s\n    cols := [\n", prefix, t.Name, minisql.LeanString(t.Name))
+		for i, c := range t.Cols {
+			w("      { name := %s, ty := %s, notNull := %v, dflt := %s }", minisql.LeanString(c.Name), c.Type.Lean(), c.NotNull, leanOptExpr(c.Default))
+			if i < len(t.Cols)-1 {
+				w(",")
+			}
+			w("\n")
+		}
+		w("    ]\n    uniques := [\n")
+		first := true
+		var nonUnique []string
+		for _, idx := range s.Indexes {
+			if idx.Table != t.Name {
+				continue
+			}
+			if !idx.Unique {
+				nonUnique = append(nonUnique, idx.Name)
+				continue
+			}
+			if !first {
+				w(",\n")
+			}
+			first = false
+			w("      { name := %s, cols := %s, pred := %s, primary := %v }", minisql.LeanString(idx.Name), leanStrList(idx.Cols), leanOptExpr(idx.Pred), idx.Primary)
+		}
+		w("\n    ]\n    checks := [\n")
+		for i, c := range t.Checks {
+			w("      { name := %s, e := %s }", minisql.LeanString(c.Name), c.Expr.Lean())
+			if i < len(t.Checks)-1 {
+				w(",")
+			}
+			w("\n")
+		}
+		w("    ]\n    triggers := [\n")
+		first = true
+		for _, tr := range s.Triggers {
+			if tr.Table != t.Name {
+				continue
+			}
+			if tr.Constraint {
+				return nil, fmt.Errorf("t2_schema: constraint trigger %s survives in the final schema; not modelled", tr.Name)
+			}
+			if len(s.Functions[tr.Func]) == 0 {
+				return nil, fmt.Errorf("t2_schema: trigger %s uses unknown function %s", tr.Name, tr.Func)
+			}
+			if !first {
+				w(",\n")
+			}
+			first = false
+			w("      { name := %s, timing := TrigTiming.%s, event := TrigEvent.%s, ofCols := %s, when_ := %s, fname := %s }",
+				minisql.LeanString(tr.Name), tr.Timing, tr.Event, leanStrList(tr.OfCols), leanOptExpr(tr.When), minisql.LeanString(tr.Func))
+		}
+		w("\n    ]\n    fks := [\n")
+		for i, fk := range t.FKs {
+			refCols := fk.RefCols
+			if len(refCols) == 0 {
+				for _, idx := range s.Indexes {
+					if idx.Table == fk.RefTable && idx.Primary {
+						refCols = idx.Cols
+					}
+				}
+			}
+			if len(refCols) != len(fk.Cols) {
+				return nil, fmt.Errorf("t2_schema: cannot resolve the referenced columns of foreign key %s", fk.Name)
+			}
+			w("      { name := %s, cols := %s, refTable := %s, refCols := %s, cascade := %v }", minisql.LeanString(fk.Name), leanStrList(fk.Cols),
+				minisql.LeanString(fk.RefTable), leanStrList(refCols), fk.OnDelete == "cascade")
+			if i < len(t.FKs)-1 {
+				w(",")
+			}
+			w("\n")
+		}
+		w("    ] }\n")
+		if len(nonUnique) > 0 {
+			w("-- non-unique indexes of %s (no semantics in the model): %s\n", t.Name, strings.Join(nonUnique, ", "))
+		}
+		w("\n")
+		tnames = append(tnames, t.Name)
+	}
+	for _, tr := range s.Triggers {
+		if s.Table(tr.Table) == nil {
+			return nil, fmt.Errorf("t2_schema: trigger %s on unknown table %s", tr.Name, tr.Table)
+		}
+	}
+	return tnames, nil
 }
 
 func prefixAll(p string, xs []string) []string {
